@@ -1,2 +1,75 @@
-From Burrow Require Import Notifier.
-Example placeholder_C13 : True. Proof. exact I. Qed.
+(* C13 - An incident keeps one identity from open to close.
+   Statements only; proofs are in NotifierProofs.v.  Model: Notifier.v (checkAndSendResponseToModules + notifyModule of
+   core/internal/notifier/coordinator.go, tied to the source by the probe of checks/c13.py on every run).
+
+   Vocabulary (NotifierProofs.v): a history h is any list of (clock, response); [opens h k i] - result i of group k is
+   worse than OK and every earlier worse-than-OK result of k was followed by an OK; [member h k i j] - result j is a
+   live (not NOTFOUND) result of k with no OK of k in [i, j), i.e. it belongs to the incident opened at i, the closing
+   OK included; [calls_at mods h j] - the Notify calls made for result j ([run_calls_at]: what [run] computes). *)
+From Coq Require Import ZArith List Bool.
+From Burrow Require Import Int64 Notifier NotifierProofs.
+Import ListNotations.
+Open Scope Z_scope.
+
+Theorem C13_calls_at_is_run :
+  forall mods h j, nth j (fst (run mods c_init h)) [] = calls_at mods h j.
+Proof. exact run_calls_at. Qed.
+Print Assumptions C13_calls_at_is_run.
+
+(* From the opening result to the closing OK every notification carries the same non-empty id and the start time
+   = clock of the opening result. *)
+Theorem C13_incident_identity :
+  forall mods h k i j c,
+    names_distinct mods -> opens h k i -> member h k i j -> In c (calls_at mods h j) ->
+    nc_id c = Some (incident_id mods h i) /\ nc_start c = Some (clock_at h i) /\
+    (nc_cluster c, nc_group c) = k.
+Proof. exact incident_identity. Qed.
+Print Assumptions C13_incident_identity.
+
+(* Different incidents (same group or not) get different ids. *)
+Theorem C13_incident_ids_distinct :
+  forall mods h k1 i1 j1 c1 k2 i2 j2 c2,
+    names_distinct mods ->
+    opens h k1 i1 -> member h k1 i1 j1 -> In c1 (calls_at mods h j1) ->
+    opens h k2 i2 -> member h k2 i2 j2 -> In c2 (calls_at mods h j2) ->
+    i1 <> i2 -> nc_id c1 <> nc_id c2.
+Proof. exact incident_ids_distinct. Qed.
+Print Assumptions C13_incident_ids_distinct.
+
+(* At the closing OK each accepting module with send-close receives exactly one close notification, with the incident's
+   id and start time; every other module receives none. *)
+Theorem C13_close_exactly_once :
+  forall mods h k i j m,
+    names_distinct mods -> opens h k i -> member h k i j -> ok_at h k j -> In m mods ->
+    close_calls (nm_name m) (calls_at mods h j) =
+    if lists_accept (nm_lists m (snd k)) && nm_accept_group m && nm_close m
+    then [mkNcall (nm_name m) (fst k) (snd k) 1 (Some (incident_id mods h i)) (Some (clock_at h i)) true]
+    else [].
+Proof. exact close_exactly_once. Qed.
+Print Assumptions C13_close_exactly_once.
+
+(* No close notification is ever made unless the result is the closing OK of an open incident of that group. *)
+Theorem C13_no_close_without_incident :
+  forall mods h j c,
+    names_distinct mods -> In c (calls_at mods h j) -> nc_good c = true ->
+    exists k i m, opens h k i /\ member h k i j /\ ok_at h k j /\ (nc_cluster c, nc_group c) = k /\
+                  In m mods /\ nm_name m = nc_module c /\ nm_close m = true /\
+                  lists_accept (nm_lists m (snd k)) = true /\ nm_accept_group m = true.
+Proof. exact no_close_without_incident. Qed.
+Print Assumptions C13_no_close_without_incident.
+
+(* Frame: several groups and clusters interleave freely. *)
+Theorem C13_groups_independent :
+  forall mods st now r k',
+    k' <> resp_key r -> c_groups (fst (on_response mods st now r)) k' = c_groups st k'.
+Proof. exact groups_independent. Qed.
+Print Assumptions C13_groups_independent.
+
+Theorem C13_response_local :
+  forall mods st1 st2 now r,
+    c_groups st1 (resp_key r) = c_groups st2 (resp_key r) -> c_next st1 = c_next st2 ->
+    snd (on_response mods st1 now r) = snd (on_response mods st2 now r) /\
+    c_groups (fst (on_response mods st1 now r)) (resp_key r) = c_groups (fst (on_response mods st2 now r)) (resp_key r) /\
+    c_next (fst (on_response mods st1 now r)) = c_next (fst (on_response mods st2 now r)).
+Proof. exact response_local. Qed.
+Print Assumptions C13_response_local.
